@@ -5,7 +5,7 @@
    allocates scratch roots, so stores are compared up to roots appended at the
    end ([st ++ g]); the document is root 0 and is never moved. *)
 From Coq Require Import Arith ZArith Lia List.
-From YQ Require Import Base.Str Model.Node Model.Store Model.Eval Spec.Lens Proofs.LensProofs Proofs.AssignProofs.
+From YQ Require Import Base.Str Model.Node Model.Store Model.Eval Spec.Lens Proofs.LensProofs Proofs.AssignProofs Proofs.EvalRO.
 Import ListNotations.
 
 (* evaluator-side path steps: a key, or an index literal (its text and the number it denotes) *)
@@ -558,3 +558,73 @@ Proof.
   - vm_compute. reflexivity.
   - vm_compute. reflexivity.
 Qed.
+
+(* ---------- any assignment-free right-hand side with one result ---------- *)
+
+(* `p = r` for every assignment-free expression r that has one result: the path is created, r is evaluated read-only
+   on the document with the path created (it only appends, C08), and the target receives the value r denotes; by
+   [put_is_vivp] the document afterwards is [put p v] of the original one, v the value of r's result. *)
+Theorem assign_path_value p r doc f n1 pos :
+  p <> [] -> Forall step_ok p -> (length p + 3 <= f)%nat -> afree r = true ->
+  vivp p doc = Some (n1, pos) ->
+  exists g, forall q st3 v,
+    eval f r true [] [(O, [])] ([mkRoot None None n1] ++ g) = Ok ([q], st3) ->
+    ptr_eqb (O, pos) q = false -> deref st3 q = Some v ->
+    exists st', eval (S f) (EAssign (pe p) r) false [] [(O, [])] (init_store doc) = Ok ([(O, [])], st')
+                /\ deref st' (O, []) = Some (upd_at n1 pos (fun _ => v)).
+Proof.
+  intros Hne Hok Hfuel Haf Ev.
+  assert (Hd0 : deref (init_store doc) (O, []) = Some doc) by reflexivity.
+  destruct (eval_pe_rw p f [] O [] (init_store doc) doc n1 pos Hne Hok ltac:(lia) Hd0 Ev) as [g1 Hg1].
+  change (update (init_store doc) (O, []) (fun _ => n1)) with [mkRoot None None n1] in Hg1.
+  set (st1 := [mkRoot None None n1] ++ g1) in *.
+  assert (Hd1 : deref st1 (O, []) = Some n1) by reflexivity.
+  destruct (eval_pe_ro p f [] O [] st1 n1 pos Hne Hok ltac:(lia) Hd1 (vivp_resolves _ _ _ _ Ev)) as [g2 Hg2].
+  exists (g1 ++ g2). intros q st3 v Hr Hneq Hdq.
+  cbn [eval]. rewrite Hg1. cbn [bind fst snd app].
+  unfold cross. cbn [each]. unfold cross1.
+  match goal with
+  | |- context [eval f (pe p) true ?a ?b ?c] =>
+      replace (eval f (pe p) true a b c) with (@Ok out ([(O, [] ++ pos)], st1 ++ g2)) by (symmetry; exact Hg2)
+  end.
+  cbn [bind fst snd app each].
+  unfold results_for_rhs, no_short. cbn [bind].
+  assert (Hst : st1 ++ g2 = [mkRoot None None n1] ++ (g1 ++ g2)) by (unfold st1; rewrite <- app_assoc; reflexivity).
+  match goal with
+  | |- context [eval f r true ?a ?b ?c] =>
+      replace (eval f r true a b c) with (@Ok out ([q], st3)) by (symmetry; rewrite <- Hr; f_equal; exact Hst)
+  end.
+  cbn [bind fst snd each].
+  unfold assign_calc, lift2, update_from. rewrite Hneq. unfold deref_r. rewrite Hdq. cbn [of_option bind fst snd app].
+  eexists. split; [reflexivity|].
+  destruct (ro_store_monotone f r [] [(O, [])] _ _ Haf Hr) as [x Hx]. cbn [snd] in Hx. rewrite Hx.
+  cbn [app update upd_nth fst snd deref nth_error r_body r_parent r_key get_at]. reflexivity.
+Qed.
+
+Corollary assign_path_value_is_put p r doc f n1 pos :
+  p <> [] -> Forall step_ok p -> (length p + 3 <= f)%nat -> afree r = true ->
+  vivp p doc = Some (n1, pos) ->
+  exists g, forall q st3 v,
+    eval f r true [] [(O, [])] ([mkRoot None None n1] ++ g) = Ok ([q], st3) ->
+    ptr_eqb (O, pos) q = false -> deref st3 q = Some v ->
+    exists st', eval (S f) (EAssign (pe p) r) false [] [(O, [])] (init_store doc) = Ok ([(O, [])], st')
+                /\ Some (deref st' (O, [])) = Some (put (List.map erase p) v doc).
+Proof.
+  intros Hne Hok Hfuel Haf Ev.
+  destruct (assign_path_value p r doc f n1 pos Hne Hok Hfuel Haf Ev) as [g H]. exists g.
+  intros q st3 v Hr Hneq Hdq. destruct (H q st3 v Hr Hneq Hdq) as (st' & He & Hd). exists st'. split; [exact He|].
+  rewrite put_is_vivp, Ev, Hd. reflexivity.
+Qed.
+
+(* non-vacuity: `.a[1] = .c` copies the container at .c; the premises of [assign_path_value] hold for it *)
+Example assign_value_example :
+  let doc := Map [([99], Seq [(RIdx 0, Scalar TInt [53])])] in
+  let p := [EK [97]; EI [49] 1] in
+  afree (EKey [99]) = true /\
+  put (List.map erase p) (Seq [(RIdx 0, Scalar TInt [53])]) doc
+  = Some (Map [([99], Seq [(RIdx 0, Scalar TInt [53])]);
+               ([97], Seq [(RIdx 0, null_node); (RIdx 1, Seq [(RIdx 0, Scalar TInt [53])])])]) /\
+  run (EAssign (pe p) (EKey [99])) doc
+  = tag_ok ++ ser_node (Map [([99], Seq [(RIdx 0, Scalar TInt [53])]);
+               ([97], Seq [(RIdx 0, null_node); (RIdx 1, Seq [(RIdx 0, Scalar TInt [53])])])]) ++ [10].
+Proof. split; [reflexivity|split]; vm_compute; reflexivity. Qed.
